@@ -243,7 +243,8 @@ func (s *Server) verifyConsensusFieldMain(cp *params.CaravelParams, seedHeader *
 	// verify priority, also do sortition verification
 	addr := crypto.PubkeyToAddress(*pubKey)
 	validator := vldReader.GetValidatorByMainAddr(addr)
-	if validator == nil {
+	// only an online chamber member is entitled to propose (same rule as the message handler applies to live proposals)
+	if validator == nil || validator.Kind() != params.KindChamber || validator.IsOffline() {
 		logging.Error("VerifyHeader failed")
 		return errors.New("illegal proposer")
 	}
@@ -419,6 +420,10 @@ func (s *Server) verifyVotes(cd *commonData, votes []SingleVote, asig []byte, st
 			if err != nil {
 				logging.Error("RecoverSignerInfo failed, validators", "vStat", vstate)
 				return fmt.Errorf("verifyBlsVotes can't recover signer info, error: %v", err)
+			}
+			// only online members of the voting kind are entitled to vote; anybody else contributes nothing
+			if validator.Kind() != kind || validator.IsOffline() {
+				continue
 			}
 			addr = crypto.PubkeyToAddress(*pubKey)
 			if staData[addr] == true {
